@@ -53,24 +53,26 @@ pub fn laws(ctx: &mut Ctx, which: Which, origin: &str, b: &[u8], from_compiler: 
         }
         Err(e) => ctx.violation("roundtrip/writer-refuses-loaded-program", "the writer refuses a program the loader produced", json!({"origin": origin, "case": describe(), "error": e})),
     }
-    // readers that deliver the same bytes in pieces
-    if which == Which::C03 {
-        for k in [1usize, 3, 7] {
+    // readers that deliver the same bytes in pieces (a file is read through a buffer: short reads are
+    // part of loading "any file in that layout")
+    let pre = if which == Which::C03 { "roundtrip" } else { "layout" };
+    if which == Which::C03 || which == Which::C04 {
+        for k in (if which == Which::C03 { vec![1usize, 3, 7] } else { vec![2usize, 5] }) {
             ctx.count("chunked_loads", 1);
             match pipeline::load_chunked(b, k).and_then(|p| pipeline::serialize(&p)) {
                 Ok(b2) if b2 == b => {}
-                Ok(_) => ctx.violation("roundtrip/short-reads-change-the-program", "loading through a reader that returns short reads yields a different program",
+                Ok(_) => ctx.violation(&format!("{}/short-reads-change-the-program", pre), "loading through a reader that returns short reads yields a different program",
                     json!({"origin": origin, "case": describe(), "chunk": k, "bytes_hex": codec::hex(b)})),
-                Err(e) => ctx.violation("roundtrip/short-reads-break-the-loader", "loading through a reader that returns short reads fails",
+                Err(e) => ctx.violation(&format!("{}/short-reads-break-the-loader", pre), "loading through a reader that returns short reads fails",
                     json!({"origin": origin, "case": describe(), "chunk": k, "error": e, "bytes_hex": codec::hex(b)})),
             }
         }
-        for cap in [16usize, 61] {
+        for cap in (if which == Which::C03 { vec![16usize, 61] } else { vec![9usize] }) {
             match pipeline::load_buffered(b, cap).and_then(|p| pipeline::serialize(&p)) {
                 Ok(b2) if b2 == b => {}
-                Ok(_) => ctx.violation("roundtrip/short-reads-change-the-program", "loading through a small BufReader yields a different program",
+                Ok(_) => ctx.violation(&format!("{}/short-reads-change-the-program", pre), "loading through a small BufReader yields a different program",
                     json!({"origin": origin, "case": describe(), "buffer": cap, "bytes_hex": codec::hex(b)})),
-                Err(e) => ctx.violation("roundtrip/short-reads-break-the-loader", "loading through a small BufReader fails",
+                Err(e) => ctx.violation(&format!("{}/short-reads-break-the-loader", pre), "loading through a small BufReader fails",
                     json!({"origin": origin, "case": describe(), "buffer": cap, "error": e, "bytes_hex": codec::hex(b)})),
             }
         }
@@ -120,6 +122,7 @@ pub fn compiler_outputs(ctx: &mut Ctx, which: Which, syn_n: usize, sem_n: usize)
     }
     ctx.stage("compiler outputs: U-SCALE");
     for (_name, prog) in super::super::universes::scale::programs(!ctx.quick()) { if ctx.take().is_some() { compiled_case(ctx, which, "U-SCALE", &show(&prog)) } }
+    for (_name, prog) in super::super::universes::scale::programs_u16() { if ctx.take().is_some() { compiled_case(ctx, which, "U-SCALE", &show(&prog)) } }
     ctx.stage("compiler outputs: U-PAIR(d=2)");
     let ts = pair::templates(); let fs = pair::fillers();
     for t in &ts { for f in &fs {
@@ -203,6 +206,15 @@ pub fn golden_files(ctx: &mut Ctx, which: Which) {
             laws(ctx, which, "GOLDEN", &b, true, &|| json!({"file": name}));
         }
     }
+}
+
+/// the n-th program of the pool-size sweep: n prints of n distinct strings, so that consecutive n give
+/// consecutive constant-pool sizes (every value of the file's first byte, 0..255, more than once) and,
+/// from n = 330 on, files larger than 8 KiB whose string constants meet the refill boundary at every alignment
+pub fn sweep_program(n: usize) -> String {
+    let mut s = String::from("null");
+    for i in 0..n { s.push_str(&format!(";\nprint(\"row {} of the sweep é\\n\")", i)) }
+    s
 }
 
 /// a program whose bytecode is larger than `fml`'s 8 KiB file buffer; `pad` shifts every later
